@@ -699,6 +699,10 @@ pub fn near_misses(p: &Program) -> Vec<(String, Program)> {
                 let mut q = p.clone();
                 q.items.insert(0, Item::Fn(FnDef { name: "uses_witness".into(), params: vec![], ret: Some(Ty::U(8)), body: (vec![], Some(Box::new(Expr::Witness("INFN".into())))) }));
                 out.push(("witness-in-function".into(), q));
+                // ... and in a function defined after main
+                let mut q = p.clone();
+                q.items.push(Item::Fn(FnDef { name: "uses_witness_late".into(), params: vec![], ret: Some(Ty::U(8)), body: (vec![], Some(Box::new(block(vec![let_(Pat::id("w"), Ty::U(8), Expr::Witness("LATE".into()))], Some(var("w")))))) }));
+                out.push(("witness-in-function-after-main".into(), q));
             } else {
                 let mut g = f.clone();
                 g.name = "main".into();
